@@ -269,6 +269,7 @@ func (e *Enc) alloc(x *ssa.Alloc) {
 	r := e.declare(name, SInt)
 	e.allocs = append(e.allocs, r)
 	e.assumeGlobal(and(not(eq(r, intLit(0))), eq(app(SInt, "ref.tag", r), intLit(int64(e.tagFor(e.fnLabel+name)))), eq(app(SInt, "ref.root", r), r), not(app(SBool, "ref.old", r))), "fresh allocation")
+	e.assume(e.stampAlloc(r), "allocation time stamp")
 	for _, p := range e.ptrParams {
 		e.assumeGlobal(not(eq(r, p)), "fresh allocation differs from parameters")
 	}
@@ -377,6 +378,7 @@ func (e *Enc) unop(x *ssa.UnOp) {
 		v = e.defineValue(x.Name(), v)
 		e.vals[x] = v
 		e.assume(rangeFact(v, x.Type()), "loaded value is well typed")
+		e.assume(e.olderThanNow(v, x.Type()), "a loaded reference designates memory allocated earlier")
 		if g, ok := x.X.(*ssa.Global); ok && x.Type().String() == "error" && (strings.HasPrefix(g.Name(), "Err") || g.Name() == "EOF") {
 			e.assume(not(eq(v.(Sc).T, intLit(0))), "error sentinel "+g.Name()+" is non-nil")
 			e.assumption("package-level error sentinels (Err*, EOF) are non-nil and never reassigned")
@@ -452,8 +454,43 @@ func (e *Enc) convert(x *ssa.Convert) {
 	}
 }
 
+// allocation clock: every allocation is stamped with the current clock value, which then advances;
+// everything that already exists (parameters, loop-carried and loaded references) is older.
+const clockFam = "L$CLOCK"
+
+func (e *Enc) clockNow() Term {
+	return sel(e.cur.get(clockFam, arrSort(SInt, SInt)), intLit(0))
+}
+
+func (e *Enc) stampAlloc(r Term) Term {
+	now := e.clockNow()
+	f := eq(app(SInt, "ref.time", r), now)
+	h := e.cur.get(clockFam, arrSort(SInt, SInt))
+	e.cur.set(clockFam, e.define(fmt.Sprintf("%s@c%d", clockFam, e.nextID()), sto(h, intLit(0), add(now, intLit(1)))))
+	return f
+}
+
+// olderThanNow: a reference value that exists at this point was allocated before now.
+func (e *Enc) olderThanNow(v Value, t types.Type) Term {
+	var ref Term
+	switch x := v.(type) {
+	case SliceV:
+		ref = x.Base
+	case Sc:
+		switch t.Underlying().(type) {
+		case *types.Pointer, *types.Map:
+			ref = x.T
+		default:
+			return tTrue
+		}
+	default:
+		return tTrue
+	}
+	return lt(app(SInt, "ref.time", app(SInt, "ref.root", ref)), e.clockNow())
+}
+
 func (e *Enc) freshRefFact(r Term) Term {
-	cs := []Term{eq(app(SInt, "ref.root", r), r), not(app(SBool, "ref.old", r))}
+	cs := []Term{eq(app(SInt, "ref.root", r), r), not(app(SBool, "ref.old", r)), e.stampAlloc(r)}
 	for _, p := range e.ptrParams {
 		cs = append(cs, not(eq(r, p)))
 	}
